@@ -155,6 +155,16 @@ def cycle(rep, geo, key, det, work, tracer=None, expected_stream=None):
                 return
         with core.quiet():
             g2.write(p2)
+        # read() into an object that already holds a geometry gives what a fresh object gets
+        if geo.num_columns <= 40:
+            with core.watchdog(120), core.quiet():
+                g2.read(p1)
+                g3 = m.mulgrid(p1)
+            bad = compare_geo(g3, g2)
+            if bad:
+                det["difference"] = "after reading into a geometry that was already loaded: " + bad[1]
+                rep.violation(key + ":reread:" + bad[0], bad[0], det)
+                return
         if open(p1, "rb").read() != open(p2, "rb").read():
             l1, l2 = open(p1).read().splitlines(), open(p2).read().splitlines()
             k = next((i for i, (x, y) in enumerate(zip(l1, l2)) if x != y), min(len(l1), len(l2)))
@@ -239,11 +249,13 @@ def run(tier):
                 k = rng.randrange(nz)
                 dzs = [max(0.5, round(d * 2) / 2.0) for d in dzs]
                 z0 = sum(dzs[:k]) + dzs[k] / 2
+            turn = rng.random() < 0.3
+            xy0 = [0.0, 0.0] if turn else [round(rng.uniform(-1e5, omax), 2), round(rng.uniform(-1e5, omax), 2)]
             with core.quiet():
                 geo = m.mulgrid().rectangular([round(rng.uniform(0.5, 900.0), 2) for _ in range(nx)],
                                               [round(rng.uniform(0.5, 900.0), 2) for _ in range(ny)],
                                               dzs,
-                                              convention=conv, atmos_type=atm, origin=[round(rng.uniform(-1e5, omax), 2), round(rng.uniform(-1e5, omax), 2), z0],
+                                              convention=conv, atmos_type=atm, origin=xy0 + [z0],
                                               justify='r', case=rng.choice(['l', 'u']), block_order=rng.choice([None, "layer_column", "dmplex"]))
             geo.unit_type = unit
             if rng.random() < 0.4:
@@ -273,8 +285,12 @@ def run(tier):
                         later.surface = round(geo.layerlist[0].bottom - 0.5 * geo.layerlist[1].thickness, 2)
                         geo.set_column_num_layers(later)
                     geo.rename_column(col.name, newname)
+            if turn:
+                # turned half way round about the origin: nodes that lay on an axis get a coordinate of about -1e-14
+                with core.quiet():
+                    geo.rotate(180.0, np.array([0.0, 0.0]))
             for w in range(rng.randint(0, 2)):
-                geo.add_well(m.well("wl%3d" % w, [np.array([round(rng.uniform(0, 100), 1), round(rng.uniform(0, 100), 1), round(-50.0 * k, 1)])
+                geo.add_well(m.well(rng.choice(["wl%3d" % w, "%5s" % ("W%d" % w), "%5d" % (w + 7), "A%-4d" % w]), [np.array([round(rng.uniform(0, 100), 1), round(rng.uniform(0, 100), 1), round(-50.0 * k, 1)])
                                                   for k in range(rng.randint(2, 6))]))
             key = "rect:conv%d:atm%d:unit=%s" % (conv, atm, geo.unit_type.strip() or "m")
             rep.case(("rect", conv, atm, nx, ny, nz, geo.unit_type, geo.block_order))
